@@ -10,12 +10,12 @@ ID = "C15"
 LEVEL = "fault_enumeration"
 RULE = ("trees {three classes incl. a 131073-byte class that reaches the suffix and content stages under the SSD pin, nested "
         "directories, a hard link; the same with file/directory symlinks and -L; a tree on ext4 under the HDD pin so that "
-        "FIEMAP is issued; a small tree under the 'unknown' pin; a tree spread over three input paths, given as arguments and through --stdin, where every call on an input path after the up-front existence check is a fault point}, `group -t 1` (two of the trees also with --unique, "
+        "FIEMAP is issued; a small tree under the 'unknown' pin; a tree spread over three input paths, given as arguments and through --stdin, where every call on an input path after the up-front existence check is a fault point; the small tree also under --transform (pipe and $IN)}, `group -t 1` (two of the trees also with --unique, "
         "--rf-under 3 and --rf-over 0); the read-side call history (stat, lstat, "
         "open, every read, opendir, every readdir, readlink, realpath, FIEMAP ioctl) is recorded twice (must be "
         "identical); then EVERY event k fails with EACCES, EIO and ENOENT (thorough: also every pair k1<k2 for the small "
         "tree). Oracle: exit 0 and a parsable report that equals the reference result (partition + replication filter) of the "
-        "tree without some subset S of the entries affected by the failing call (the path and its other links; the sub-tree for a directory call), S empty "
+        "tree without some subset S of the entries affected by the failing call (the path and its other links; the sub-tree for a directory call), S empty (and then every group with the length and hash of the fault-free run) "
         "for FIEMAP faults and probes of absent ignore files; a warning unless the errno is ENOENT; every reported group "
         "byte-identical. distinct_nontrivial = distinct (tree, k, errno) reached.")
 ASSUMPTIONS = ["input validation is not part of the property and is skipped: the stat/realpath of the base directory, the "
@@ -65,6 +65,10 @@ def cases(tier, seed):
     for flt in (["--unique"], ["--rf-under", "3"], ["--rf-over", "0"]):
         out.append({"tree": "main_ssd", "pairs": False, "tier": tier, "filter": flt})
         out.append({"tree": "small_unknown", "pairs": False, "tier": tier, "filter": flt})
+    # --transform: fclones itself opens each file and hands it to the child (pipe mode) or copies it ($IN)
+    for tr in (["--transform", "cat"], ["--transform", "cat $IN"]):
+        for flt in ([], ["--rf-over", "0"]):
+            out.append({"tree": "small_unknown", "pairs": False, "tier": tier, "filter": flt, "transform": tr})
     for stdin in (False, True):
         for flt in ([], ["--rf-over", "0"]):
             out.append({"tree": "three_roots", "pairs": False, "tier": tier, "stdin": stdin, "filter": flt})
@@ -85,7 +89,8 @@ def evaluate(case):
         roots = ROOTS.get(case["tree"], ["r"])
         via_stdin = bool(case.get("stdin"))
         stdin = ("\n".join(roots) + "\n").encode() if via_stdin else b""
-        args = ["group", "-t", "1", "--min", "0", "-f", "json"] + gargs + flt + (["--stdin"] if via_stdin else roots)
+        trargs = case.get("transform", [])
+        args = ["group", "-t", "1", "--min", "0", "-f", "json"] + gargs + flt + trargs + (["--stdin"] if via_stdin else roots)
         env = {"FCLONES_VERIF_DISK_KIND": disk}
         rec = S.run_with_shim(sc, args, [sc.tree], "r", env_extra=env, stdin=stdin)
         rec2 = S.run_with_shim(sc, args, [sc.tree], "r", env_extra=env, stdin=stdin)
@@ -96,6 +101,7 @@ def evaluate(case):
             raise C.MachineryError("fault-free run failed: %s" % rec["err"][-300:])
         base = C.parse_json_report(rec["out"])
         base_groups = [frozenset(C.u(p) for p in g["paths"]) for g in base.groups]
+        base_attr = {frozenset(os.path.normpath(C.u(p)) for p in g["paths"]): (g["len"], g["hash"]) for g in base.groups}
         events = rec["events"]
         # file facts from the real tree
         info = {}
@@ -181,11 +187,11 @@ def evaluate(case):
             if d:
                 raise C.MachineryError("prefix diverged before event %d (%s): %s" % (k, case["tree"], d))
             ev = events[k]
-            feat = {"call": ev.call, "errno": e, "on_input_path": ev.path in roots_abs, "stage": "walk" if ev.call in ("opendir", "readdir", "lstat", "readlink", "realpath") else "hash_or_stat",
+            feat = {"call": ev.call, "errno": e, "transform": bool(trargs), "on_input_path": ev.path in roots_abs, "stage": "walk" if ev.call in ("opendir", "readdir", "lstat", "readlink", "realpath") else "hash_or_stat",
                     "second_fault": k2 is not None}
             ctx = "%s event %d %r errno %s%s" % (case["tree"], k, ev, e, " + EIO at event %d of the faulted run" % k2 if k2 is not None else "")
             rc_case = dict(case, only=[k, e, k2])
-            reached.append([case["tree"], " ".join(case.get("filter", [])), via_stdin, k, e, k2])
+            reached.append([case["tree"], " ".join(case.get("filter", []) + trargs), via_stdin, k, e, k2])
             if res["timeout"]:
                 viol.append(dict(feat, kind="hang", detail=ctx, replay_case=rc_case))
                 continue
@@ -228,6 +234,14 @@ def evaluate(case):
                 if expected_for(cand) == set(obs_groups):
                     accepted = cand
                     break
+            if accepted is not None and not accepted:
+                # same groups as without the fault: then also the same length and hash for each of them
+                for g in obs.groups:
+                    key = frozenset(os.path.normpath(C.u(p)) for p in g["paths"])
+                    if key in base_attr and base_attr[key] != (g["len"], g["hash"]):
+                        viol.append(dict(feat, kind="group_attributes_differ", filter=" ".join(flt) or "default",
+                                         detail="%s: group %s has (len, hash) %s, fault-free run %s" % (
+                                             ctx, sorted(key), (g["len"], g["hash"]), base_attr[key]), replay_case=rc_case))
             if accepted is None:
                 viol.append(dict(feat, kind="other_files_affected", filter=" ".join(flt) or "default",
                                  detail="%s: groups %s; expected the fault-free result %s or the result of the tree without a subset of %s" % (
